@@ -434,6 +434,74 @@ func c14ValidName(p *core.Prog, r *core.Run, vn *ssa.Function) {
 			}
 		}
 	}
+	// the same with the labels produced one at a time by strings.Cut(rest, "."):
+	// rest starts as the name and continues with what Cut left; every piece cut
+	// off is tested
+	if !okL {
+		for _, b := range vn.Blocks {
+			iff, isIf := b.Instrs[len(b.Instrs)-1].(*ssa.If)
+			if !isIf {
+				continue
+			}
+			f := p.FactOf(core.Guard{Cond: iff.Cond, Pol: true, If: iff})
+			if !(f.Op == ">" && f.R != nil && f.R.Name == "63" && f.L.Op == "call" && f.L.Name == "len") {
+				continue
+			}
+			ex, ok := f.L.Args[0].Val.(*ssa.Extract)
+			if !ok || ex.Index != 0 {
+				continue
+			}
+			cut, ok := ex.Tuple.(*ssa.Call)
+			if !ok || p.X(cut).Name != "strings.Cut" || p.X(cut.Call.Args[1]).Name != `"."` {
+				continue
+			}
+			rest, ok := cut.Call.Args[0].(*ssa.Phi)
+			if !ok {
+				continue
+			}
+			fromName, fromCut := false, true
+			for _, e := range rest.Edges {
+				if e == ssa.Value(vn.Params[0]) {
+					fromName = true
+					continue
+				}
+				if e2, ok := e.(*ssa.Extract); !ok || e2.Index != 1 || e2.Tuple != ssa.Value(cut) {
+					fromCut = false
+				}
+			}
+			// the test sits between the cut and the next round: it dominates every back edge
+			dom := true
+			for i := range rest.Edges {
+				if pr := rest.Block().Preds[i]; pr != vn.Blocks[0] && core.CanReach(rest.Block(), pr) && !b.Dominates(pr) {
+					dom = false
+				}
+			}
+			if ret, isRet := b.Succs[0].Instrs[len(b.Succs[0].Instrs)-1].(*ssa.Return); isRet && p.X(ret.Results[0]).Name == "false" && fromName && fromCut && dom {
+				// and a true result is only returned once Cut found no further separator
+				okL = true
+				for _, ret := range core.Returns(vn) {
+					if p.X(ret.Results[0]).Name == "false" {
+						continue
+					}
+					noMore := false
+					for _, g := range p.Facts(ret.Block()) {
+						if g.Op == "false" {
+							if ph, ok := g.L.Val.(*ssa.Phi); ok {
+								for _, e := range ph.Edges {
+									if e2, ok := e.(*ssa.Extract); ok && e2.Index == 2 && e2.Tuple == ssa.Value(cut) {
+										noMore = true
+									}
+								}
+							}
+						}
+					}
+					if !noMore {
+						okL = false
+					}
+				}
+			}
+		}
+	}
 	r.Check("C14.N1", "validName:63", okL, p.Pos(vn.Pos()), "validName refuses any dot-separated label longer than 63 bytes")
 }
 
